@@ -6,6 +6,7 @@ pub mod c01;
 pub mod c02;
 pub mod c03;
 pub mod c04;
+pub mod c06;
 pub mod c08;
 pub mod c10;
 
@@ -23,13 +24,17 @@ pub fn lookup(id: &str) -> Option<&'static Entry> {
     ALL.iter().find(|e| e.id == id)
 }
 
-pub static ALL: &[Entry] = &[c01::ENTRY, c02::ENTRY, c03::ENTRY, c04::ENTRY, c08::ENTRY, c10::ENTRY];
+pub static ALL: &[Entry] = &[c01::ENTRY, c02::ENTRY, c03::ENTRY, c04::ENTRY, c06::ENTRY, c08::ENTRY, c10::ENTRY];
 
 pub fn replay(ctx: &Ctx, path: &str) -> i32 {
     common::replay_file(ctx, path)
 }
 
 pub fn replay_special(_ctx: &Ctx, case: &serde_json::Value) -> i32 {
+    match case["kind"].as_str() {
+        Some("c06") => return c06::replay(case),
+        _ => {}
+    }
     eprintln!("no special replay for kind {}", case["kind"]);
     2
 }
